@@ -958,6 +958,11 @@ func dynIsName(ty types.Type) string {
 	if n, ok := types.Unalias(ty).(*types.Named); ok {
 		return "dyn_isa_" + n.Origin().Obj().Name()
 	}
+	if p, ok := types.Unalias(ty).(*types.Pointer); ok {
+		if n, ok := types.Unalias(p.Elem()).(*types.Named); ok {
+			return "dyn_isptr_" + n.Origin().Obj().Name()
+		}
+	}
 	return "dyn_is_" + identSan.ReplaceAllString(types.TypeString(ty, func(*types.Package) string { return "" }), "_")
 }
 
@@ -977,6 +982,16 @@ func (u *Unit) boxFacts(env *Env, b Term, ty types.Type) {
 			env.assume(Not(u.untyped(b)))
 			u.isaOrigin(fn, n, b)
 			// a boxed value of a named non-interface type implements exactly the interfaces its method set satisfies
+			u.boxedStatic[b.S] = ty
+		}
+	}
+	if pt, ok := types.Unalias(ty).(*types.Pointer); ok && hasTypeParam(ty) {
+		if _, isNamed := types.Unalias(pt.Elem()).(*types.Named); isNamed {
+			// a boxed pointer to a generic named type: its dynamic type is that pointer type
+			fn := dynIsName(ty)
+			u.D.Fun(fn, SBool, SVal)
+			env.assume(App(fn, SBool, b))
+			env.assume(Not(u.untyped(b)))
 			u.boxedStatic[b.S] = ty
 		}
 	}
